@@ -623,6 +623,9 @@ func runReplay(eng *Engine, o runOpts, ct *Contract, src string, work, tag strin
 		os.WriteFile(f, []byte(s), 0o644)
 		ov["Replace"][filepath.Join(o.repo, d, elabFile)] = f
 	}
+	for p, alt := range eng.extraOverlay {
+		ov["Replace"][p] = alt
+	}
 	ovFile := filepath.Join(work, tag+"_overlay.json")
 	data, _ := json.Marshal(ov)
 	os.WriteFile(ovFile, data, 0o644)
